@@ -102,7 +102,7 @@ class Drv:
             v = b2f(t[1])
             nc = int(t[2])
             co = [b2f(x) for x in t[3:]]
-        elif t[0] in ('raise', 'error'):
+        elif t[0] in ('raise', 'error', 'fraise'):
             v = None
             nc = int(t[1])
             co = [b2f(x) for x in t[2:]]
@@ -183,14 +183,35 @@ def rnd_fn(rng, dim, area, kind):
     return d
 
 
-class Rec:
-    """recording wrapper: what the caching object asked the wrapped function, in order"""
+class Boom(Exception):
+    """a custom exception type for raising wrapped functions"""
 
-    def __init__(self, f):
+
+EXC = {'ZeroDivisionError': ZeroDivisionError, 'ValueError': ValueError, 'Boom': Boom, 'RuntimeError': RuntimeError}
+
+
+class Rec:
+    """recording wrapper: what the caching object asked the wrapped function, in order.  With `raising` =
+    dict(axis, lo, hi, exc, k) the function raises `exc` when its `axis` coordinate lies in [lo, hi] — on the first k
+    such calls (k = None: always), then it recovers.  A raised call is recorded with value 'R'."""
+
+    def __init__(self, f, raising=None):
         self.f = f
         self.calls = []
+        self.raising = raising
+        self.nraised = 0
+        self.last_exc = None
+
+    def would_raise(self, a):
+        r = self.raising
+        return r is not None and r['lo'] <= float(a[r['axis']]) <= r['hi'] and (r['k'] is None or self.nraised < r['k'])
 
     def __call__(self, *a):
+        if self.would_raise(a):
+            self.nraised += 1
+            self.calls.append((tuple(float(x) for x in a), 'R'))
+            self.last_exc = EXC[self.raising['exc']]('wrapped function failed at %r' % (a,))
+            raise self.last_exc
         v = self.f(*a)
         self.calls.append((tuple(float(x) for x in a), float(v)))
         return v
@@ -236,6 +257,41 @@ def rnd_scenario(rng, dim, kind=None):
     sc = dict(dim=dim, area=area, res=res, nbe=rng.random() < 0.4, bounds=bounds, fn=fn)
     sc['points'] = rnd_points(rng, sc)
     return sc
+
+
+def rnd_scenario_aniso(rng, dim, a=None):
+    """one axis (each in turn) much finer than the others (ratio up to 1e3); the function is curved along the fine
+    axis only (multilinear in the others), so the bound sum_i H_i^2 max|d2f/dx_i^2| is the fine axis' alone"""
+    a = rng.randrange(dim) if a is None else a
+    ratio = 10 ** rng.uniform(1.3, 3)
+    area, res = [], []
+    for d in range(dim):
+        L = rng.choice([1.0, 0.1, 10.0, 3.7, 2.0])
+        off = L * rng.uniform(-1.5, 0.5) * rng.choice([0, 1, 1])
+        r = L / rng.randint(1, 3) * rng.uniform(0.7, 1.0)
+        if d == a:
+            r = max(r / ratio, L / 2000.0)
+        area += [off, off + L]
+        res.append(r)
+    fn = rnd_fn(rng, dim, area, 'smooth')
+    La = area[2 * a + 1] - area[2 * a]
+    fn['k'] = [rng.uniform(2, 12) / La if d == a else 0.0 for d in range(3)]
+    fn['phi'] = [rng.uniform(0, 6.28) if d == a else 1.5707963267948966 for d in range(3)]
+    fn['B'] = [rng.uniform(-3, 3) / La ** 2 if d == a else 0.0 for d in range(3)]
+    fn['kind'] = 'aniso'
+    sc = dict(dim=dim, area=area, res=res, nbe=False, bounds=rng.choice([None, None, (-3.0, 20.0)]), fn=fn, fine_axis=a)
+    sc['points'] = rnd_points(rng, sc, n_in={1: 6, 2: 4, 3: 2}[dim])
+    return sc
+
+
+def rnd_raising(rng, sc):
+    """make the wrapped function raise at the nodes of one grid plane (first k raising calls, or always)"""
+    c = build(sc, lambda *a: 0.0)
+    dom = domains(c, sc['dim'])
+    a = rng.randrange(sc['dim'])
+    node = float(dom[a][rng.randint(0, len(dom[a]) - 1)])
+    w = 1e-9 * max(1.0, abs(node)) if rng.random() < 0.7 else 0.3 * (sc['area'][2 * a + 1] - sc['area'][2 * a])
+    return dict(axis=a, lo=node - w, hi=node + w, exc=rng.choice(sorted(EXC)), k=rng.choice([1, 1, 2, 3, 7, None]))
 
 
 def rnd_points(rng, sc, n_in=None):
@@ -298,21 +354,26 @@ def classify(sc, p):
 # ----------------------------------------------------------------------------------------------------------------
 def run_impl(sc, order):
     f = Fn(sc['fn'])
-    rec = Rec(f)
+    rec = Rec(f, sc.get('raising'))
     c = build(sc, rec)
     out = []
     for idx in order:
         p = sc['points'][idx]
         n0 = len(rec.calls)
+        rec.last_exc = None
         try:
             v = c(*p)
             st = 'val'
-        except np.linalg.LinAlgError:        # NB a subclass of ValueError: test it first
-            v, st = None, 'error'
-        except ValueError:
-            v, st = None, 'raise'
         except Exception as e:  # noqa
-            v, st = None, 'Other:' + type(e).__name__
+            v = None
+            if rec.last_exc is not None and e is rec.last_exc:
+                st = 'fraise'                    # the wrapped function's own exception came out unchanged
+            elif isinstance(e, np.linalg.LinAlgError):      # NB a subclass of ValueError: test it first
+                st = 'error'
+            elif isinstance(e, ValueError):
+                st = 'raise'
+            else:
+                st = 'Other:' + type(e).__name__
         out.append((st, v, rec.calls[n0:]))
     return c, out
 
@@ -363,16 +424,17 @@ def k_history(ctx, drv, sc, order, c, impl_out, tag):
                            model_nodes=md[:8], impl_nodes=dom[:8], model_xn=mx[:8], impl_xn=xn[:8]))
             return 0
     sc_scale = scale_of(sc)
-    sent = set()
+    sent = {}
     ncmp = 0
     for idx, (st, v, calls) in zip(order, impl_out):
         p = sc['points'][idx]
         new = []
         for a, val in calls:
             key = tuple(f2b(x) for x in a)
-            if key not in sent:
-                sent.add(key)
-                new.append('fn %d %s %s' % (fid, fs(a), f2b(val)))
+            tok = 'R' if val == 'R' else f2b(val)
+            if sent.get(key) != tok:
+                sent[key] = tok
+                new.append('fn %d %s %s' % (fid, fs(a), tok))
         if new:
             drv.ask_many(new)
         mst, mv, mcalls, solved = drv.evaluate(oid, p)
@@ -432,7 +494,7 @@ def k_history(ctx, drv, sc, order, c, impl_out, tag):
 
 def _short(sc):
     d = dict(sc)
-    d['points'] = [list(p) for p in sc.get('points', [])][:40]
+    d['points'] = [list(p) for p in sc.get('points', [])][:60]
     return d
 
 
@@ -445,25 +507,29 @@ def far_from_origin(sc):
     return max(_regime(sc)[1:])
 
 
-FAR = {1: 1e4, 2: 300.0, 3: 100.0}        # cell widths from the origin beyond which digits are visibly lost (per dimension)
-FINE = {1: 1e4, 2: 200.0, 3: 50.0}        # cells per axis
+FAR = {1: 1e4, 2: 300.0, 3: 100.0}         # cell widths from the origin (largest over the axes) beyond which digits are visibly lost
+FINE = {1: 1e4, 2: 200.0 ** 2, 3: 50.0 ** 3}   # total number of cells
 
 
 def _regime(sc):
-    off = ncell = 0.0
+    """only used to name value errors found by the streams that probe the float-fragile regimes on purpose"""
+    off = 0.0
+    ncell = 1.0
     for d in range(sc['dim']):
         lo, hi, r = sc['area'][2 * d], sc['area'][2 * d + 1], sc['res'][d]
         n = max(int((hi - lo) / r), 1)
         off = max(off, max(abs(lo), abs(hi)) / ((hi - lo) / n))
-        ncell = max(ncell, float(n))
+        ncell *= float(n)
     name = 'far-from-origin' if off > FAR[sc['dim']] else ('fine-grid' if ncell > FINE[sc['dim']] else 'regular')
     return name, off, ncell
 
 
 def value_sig(sc, generic):
-    """signature of a value error: named after the float regime when the scenario is in one, else the generic clause"""
+    """signature of a value error.  Only the streams that deliberately probe the float-fragile regimes (witnesses,
+    explore_fragile: sc['fragile']) name it after the regime; everywhere else the generic clause name is used, so that
+    a known float finding can never mask a different defect found by the regular / anisotropic / raising streams."""
     reg = _regime(sc)[0]
-    return generic if reg == 'regular' else 'precision-loss-' + reg
+    return generic if (reg == 'regular' or not sc.get('fragile')) else 'precision-loss-' + reg
 
 
 def fail_sig(sc, what):
@@ -484,6 +550,45 @@ def s_history(ctx, sc, results):
                          dict(check='history', scenario=_short(sc), point=p, orders=[list(order), seen[key][1]]))
                 return
             seen.setdefault(key, (cur, list(order)))
+
+
+def s_raising(ctx, sc, results):
+    """wrapped function that raises (and may recover): an evaluation during which it raised must let that very
+    exception out; any other evaluation must give exactly what a fresh cache around the healthy function gives —
+    never NaN or a stale block left behind by the failed attempt"""
+    ref_obj = build(sc, Fn(sc['fn']))
+    ref = {}
+
+    def fresh(p):
+        if p not in ref:
+            try:
+                ref[p] = ('val', ref_obj(*p))
+            except np.linalg.LinAlgError:
+                ref[p] = ('error', None)
+            except ValueError:
+                ref[p] = ('raise', None)
+        return ref[p]
+
+    for order, out in results:
+        for pos, (idx, (st, v, calls)) in enumerate(zip(order, out)):
+            p = sc['points'][idx]
+            raised = any(val == 'R' for _, val in calls)
+            ctx.count('S:raising:%s' % ('raised' if raised else 'clean'))
+            if raised:
+                ok, what = st == 'fraise', 'exception-swallowed'
+                why = 'the wrapped function raised during this evaluation but evaluate() gave status %s value %r' % (st, v)
+            else:
+                rs, rv = fresh(p)
+                ok = st == rs and (rv is None or (v is not None and same_float(v, rv)))
+                what = 'stale-result-after-failure'
+                why = 'the wrapped function did not raise during this evaluation; got status %s value %r, a fresh cache gives %s %r' % (st, v, rs, rv)
+            if not ok:
+                ctx.fail(fail_sig(sc, 'raising-function:' + what),
+                         'point %r, step %d of history %r, raising=%r: %s' % (p, pos, list(order), sc['raising'], why),
+                         dict(check='raising', scenario=_short(sc), point=p, order=list(order)))
+                return
+            if not raised and classify(sc, p) == 'inside' and st == 'val':
+                ctx.count('S:raising:value-equals-fresh-cache')
 
 
 def s_outside(ctx, sc, results):
@@ -513,11 +618,20 @@ def s_outside(ctx, sc, results):
                 if st not in ('val',):
                     rho = far_from_origin(sc)
                     name = {'raise': 'ValueError', 'error': 'LinAlgError'}.get(st, st.replace('Other:', ''))
-                    ctx.fail(fail_sig(sc, '%s-inside-area' % name),
+                    ctx.fail(fail_sig(sc, '%s-inside-area%s' % (name, '' if sc.get('fragile') else ':regular-grid')),
                              'point %r inside the caching area %r (resolution %r) raised %s (grid: up to %.3g cells from the origin)'
                              % (p, sc['area'], sc['res'], name, rho),
                              dict(check='inside-raises', scenario=_short(sc), point=p, order=list(order)))
                     return
+
+
+def spec_spacing(sc, d):
+    """largest node spacing along axis d according to the documented construction (not read from the object: a
+    misplaced node must not relax the bound): inner nodes linspace(min-eps, max+eps, max(int(L/res)+1, 2)), one outer
+    node at distance `resolution` beyond each end"""
+    lo, hi, r = sc['area'][2 * d], sc['area'][2 * d + 1], sc['res'][d]
+    n = max(int((hi - lo) / r) + 1, 2)
+    return max((hi - lo + 2 * EPS) / (n - 1), r)
 
 
 def s_values(ctx, sc, c, n_extra, rng):
@@ -530,18 +644,27 @@ def s_values(ctx, sc, c, n_extra, rng):
     dom = domains(c, dim)
     scale = scale_of(sc)
     floor = 1e-9 * scale
-    H = [float(np.max(np.diff(dom[d]))) for d in range(dim)]
+    H = [spec_spacing(sc, d) for d in range(dim)]
     bound = sum(H[d] ** 2 * fn.m2(d) for d in range(dim))
     pts = []
     for _ in range(n_extra):
         pts.append(('node', tuple(float(dom[d][rng.randint(1, len(dom[d]) - 3)]) for d in range(dim))))
         pts.append(('in', tuple(rng.uniform(sc['area'][2 * d], sc['area'][2 * d + 1]) for d in range(dim))))
+    # first and last layer of cells of every axis (where the outer nodes enter the finite differences)
+    for k, a in enumerate(list(range(dim)) + ([sc['fine_axis']] * 12 if 'fine_axis' in sc else [])):
+        for side in (0, 1):
+            q = [rng.uniform(sc['area'][2 * d], sc['area'][2 * d + 1]) for d in range(dim)]
+            lo, hi = sc['area'][2 * a], sc['area'][2 * a + 1]
+            # k >= dim: extra points on the fine axis, placed where the end-slope basis function is largest
+            w = min(H[a], hi - lo) * (rng.uniform(0.05, 0.95) if k < dim else rng.uniform(0.15, 0.6))
+            q[a] = lo + w if side == 0 else hi - w
+            pts.append(('layer', tuple(q)))
     for kind, p in pts:
         try:
             v = c(*p)
         except Exception as e:  # noqa
             name = type(e).__name__
-            ctx.fail(fail_sig(sc, '%s-inside-area' % name),
+            ctx.fail(fail_sig(sc, '%s-inside-area%s' % (name, '' if sc.get('fragile') else ':regular-grid')),
                      'point %r inside the caching area %r (resolution %r) raised %s' % (p, sc['area'], sc['res'], name),
                      dict(check='inside-raises', scenario=_short(sc), point=p))
             return
@@ -666,7 +789,7 @@ def s_witness(ctx, w):
     dim = sc['dim']
     dom = domains(c, dim)
     rng = random.Random('C14-witness-' + w['name'])
-    sc = dict(sc, points=[])
+    sc = dict(sc, points=[], fragile=True)
     for _ in range(w['cells']):
         ix = [rng.randint(1, len(dom[d]) - 3) for d in range(dim)]
         p = tuple(float(0.5 * (dom[d][ix[d]] + dom[d][ix[d] + 1])) for d in range(dim))
@@ -699,7 +822,8 @@ def explore_fragile(ctx, n):
             area += [off, off + L]
             res.append(L / ncell * 0.999)
         kind = rng.choice(['multilinear', 'smooth'])
-        sc = dict(dim=dim, area=area, res=res, nbe=False, bounds=rng.choice([None, None, (-3.0, 20.0)]), points=[])
+        sc = dict(dim=dim, area=area, res=res, nbe=False, bounds=rng.choice([None, None, (-3.0, 20.0)]), points=[],
+                  fragile=True)
         sc['fn'] = rnd_fn(rng, dim, area, kind)
         fn = Fn(sc['fn'])
         try:
@@ -725,14 +849,14 @@ def _single_point_oracle(ctx, sc, c, fn, p):
     dom = domains(c, dim)
     scale = scale_of(sc)
     floor = 1e-9 * scale
-    H = [float(np.max(np.diff(dom[d]))) for d in range(dim)]
+    H = [spec_spacing(sc, d) for d in range(dim)]
     bound = sum(H[d] ** 2 * fn.m2(d) for d in range(dim))
     rho = far_from_origin(sc)
     try:
         v = c(*p)
     except Exception as e:  # noqa
         name = type(e).__name__
-        ctx.fail(fail_sig(sc, '%s-inside-area' % name),
+        ctx.fail(fail_sig(sc, '%s-inside-area%s' % (name, '' if sc.get('fragile') else ':regular-grid')),
                  'point %r inside the caching area %r (resolution %r) raised %s (grid: up to %.3g cells from the origin)'
                  % (p, sc['area'], sc['res'], name, rho),
                  dict(check='inside-raises', scenario=_short(sc), point=p))
@@ -767,12 +891,16 @@ def run_scenario(ctx, drv, sc, nperm, do_k=True):
         c, out = run_impl(sc, o)
         results.append((o, out))
         last = c
-        ctx.case(key=('hist', sc['dim'], sc['fn']['kind'], sc['nbe'], sc['bounds'] is not None, tuple(o[:6]), f2b(sc['area'][0])),
+        ctx.case(key=('hist', sc['dim'], sc['fn']['kind'], sc.get('raising') is not None, sc['nbe'], sc['bounds'] is not None, tuple(o[:6]), f2b(sc['area'][0])),
                  sample=dict(dim=sc['dim'], area=sc['area'], resolution=sc['res'], no_boundary_error=sc['nbe'],
                              function_boundaries=sc['bounds'], function=sc['fn']['kind'], order=o,
                              points=[list(p) for p in sc['points'][:5]]) if rng.random() < 0.02 else None)
         if do_k:
             ctx.traces += k_history(ctx, drv, sc, o, c, out, 'history')
+    if sc.get('raising') is not None:
+        s_raising(ctx, sc, results)
+        ctx.count('scenario:%dD:raising' % sc['dim'])
+        return
     s_history(ctx, sc, results)
     s_outside(ctx, sc, results)
     s_values(ctx, sc, last, {1: 6, 2: 4, 3: 1}[sc['dim']], rng)
@@ -828,6 +956,17 @@ def run(ctx):
             for _ in range(nsc[dim]):
                 sc = rnd_scenario(ctx.rng, dim)
                 run_scenario(ctx, drv, sc, 5)
+        # anisotropic resolutions (each axis in turn the fine one) and raising wrapped functions
+        nan_ = {2: ctx.n(8, 300), 3: ctx.n(6, 90)}
+        for dim in (2, 3):
+            for it in range(nan_[dim]):
+                run_scenario(ctx, drv, rnd_scenario_aniso(ctx.rng, dim, it % dim), 2 if dim == 3 else 3)
+        nr = {1: ctx.n(16, 800), 2: ctx.n(8, 300), 3: ctx.n(2, 40)}
+        for dim in (1, 2, 3):
+            for _ in range(nr[dim]):
+                sc = rnd_scenario(ctx.rng, dim, kind=ctx.rng.choice(['smooth', 'multilinear']))
+                sc['raising'] = rnd_raising(ctx.rng, sc)
+                run_scenario(ctx, drv, sc, 5)
         # float-gap witnesses: S on each; K on the cheap ones (the Float model must show the same behaviour)
         ws = witnesses()
         for w in ws:
@@ -871,7 +1010,7 @@ def _replay_one(ctx, rep):
             okb = got == (top if v <= x[-1] + pad else top + 1)
         if not okb:
             ctx.fail('C14:find_index:bracket', 'find_index(%r, %r, padding=%r) = %d' % (x, v, pad, got), rep)
-    elif chk in ('values', 'inside-raises', 'bounds', 'outside', 'history'):
+    elif chk in ('values', 'inside-raises', 'bounds', 'outside', 'history', 'raising'):
         sc = dict(rep['scenario'])
         sc['points'] = [tuple(p) for p in sc.get('points', [])]
         if sc['bounds'] is not None:
@@ -889,6 +1028,9 @@ def _replay_one(ctx, rep):
         elif chk == 'outside':
             c, out = run_impl(sc, rep['order'])
             s_outside(ctx, sc, [(rep['order'], out)])
+        elif chk == 'raising':
+            c, out = run_impl(sc, rep['order'])
+            s_raising(ctx, sc, [(rep['order'], out)])
         elif chk == 'bounds':
             s_bounds(ctx, sc, random.Random(0))
         else:
